@@ -490,6 +490,98 @@ func runC11(r *ev.Recorder) {
 		}
 	}
 
+	// (numbered names) N packages whose name is the literal type's name without its size (int, uint,
+	// float, complex) in one File with a literal of the type <name><N>: the N-th numbered import
+	// name must step over the type name
+	for _, tn := range []string{"int8", "int16", "int32", "int64", "uint8", "uint16", "uint32", "uint64", "float32", "float64", "complex64", "complex128"} {
+		base := strings.TrimRight(tn, "0123456789")
+		n, _ := strconv.Atoi(tn[len(base):])
+		var v any
+		for _, x := range []any{int8(1), int16(1), int32(1), int64(1), uint8(1), uint16(1), uint32(1), uint64(1), float32(1), 1.5, complex64(1), complex128(1i)} {
+			if reflect.TypeOf(x).String() == tn {
+				v = x
+			}
+		}
+		f := jen.NewFile("p")
+		for i := 0; i <= n+1; i++ {
+			f.Var().Id("_").Op("=").Qual(fmt.Sprintf("m%d.x/%s", i, base), "V")
+		}
+		f.Const().Id("L").Op("=").Lit(v)
+		o := jh.RenderFile(f)
+		r.Eval(1)
+		desc := fmt.Sprintf("Lit(%s(...)) in a File importing %d packages called %s", tn, n+2, base)
+		r.Distinct(desc)
+		msg := ""
+		if !o.OK() {
+			msg = "render failed: " + o.String()
+		} else {
+			fset := token.NewFileSet()
+			af, err := parser.ParseFile(fset, "out.go", o.Out, 0)
+			if err != nil {
+				msg = "output does not parse: " + err.Error()
+			} else {
+				conf := types.Config{Importer: c11Importer{name: base}, Error: func(error) {}}
+				pkg, err := conf.Check("p", fset, []*ast.File{af}, nil)
+				if err != nil {
+					msg = "type error: " + err.Error()
+				} else if l, ok := pkg.Scope().Lookup("L").(*types.Const); !ok || !(c11Bare[tn] && types.Identical(types.Default(l.Type()), c11Basic[tn]) || !c11Bare[tn] && types.Identical(l.Type(), c11Basic[tn])) {
+					msg = fmt.Sprintf("L is not a constant of type %s", tn)
+				}
+			}
+		}
+		if msg != "" {
+			r.Violate(ev.Violation{Signature: "c11:type-name-taken-by-numbered-import:" + tn, What: desc + ": " + jh.Short(msg, 200), Case: ev.JSON(c11Case{Type: "litfunc-stateful"}), Detail: msg + "\n" + jh.Short(o.Out, 3000)})
+		}
+	}
+
+	// non-finite floats are outside Lit's contract, but LitFunc must do whatever Lit does with the
+	// value its function returns (same text, or both fail)
+	for _, v := range []any{math.Inf(1), math.Inf(-1), math.NaN(), float32(math.Inf(1)), float32(math.Inf(-1)), float32(math.NaN()), complex(math.Inf(1), 0), complex64(complex(0, math.Inf(-1)))} {
+		v := v
+		a := jh.CatchOutcome(func() jh.Outcome { return jh.Raw(jen.Var().Id("x").Op("=").Lit(v)) })
+		b := jh.CatchOutcome(func() jh.Outcome { return jh.Raw(jen.Var().Id("x").Op("=").LitFunc(func() interface{} { return v })) })
+		fa := jh.CatchOutcome(func() jh.Outcome { f := jen.NewFile("p"); f.Var().Id("x").Op("=").Lit(v); return jh.RenderFile(f) })
+		fb := jh.CatchOutcome(func() jh.Outcome {
+			f := jen.NewFile("p")
+			f.Var().Id("x").Op("=").LitFunc(func() interface{} { return v })
+			return jh.RenderFile(f)
+		})
+		r.Eval(2)
+		r.Distinct(fmt.Sprintf("non-finite-%T-%v", v, v))
+		if a.OK() != b.OK() || (a.OK() && a.Out != b.Out) || fa.OK() != fb.OK() || (fa.OK() && fa.Out != fb.Out) {
+			r.Violate(ev.Violation{Signature: "c11:litfunc-differs-from-lit", What: fmt.Sprintf("Lit(%T %v) renders %q (in a formatted File: %q), LitFunc returning the same value %q (%q)", v, v, a, jh.Short(fa.String(), 120), b, jh.Short(fb.String(), 120)),
+				Case: ev.JSON(c11Case{Type: "litfunc-stateful"}), Detail: "LitFunc behaves identically on the value its function returns"})
+		}
+	}
+
+	// literals appended to statements built by Add(parts...) from ONE slice with spare capacity
+	{
+		vals := []any{int8(-128), uint8(255), 1.5, true, 7, complex64(1 + 2i), int64(9), "s"}
+		for extra := 0; extra <= 3; extra++ {
+			for n := 1; n <= 5; n++ {
+				parts := make([]jen.Code, 0, n+extra)
+				head := ""
+				for i := 0; i < n; i++ {
+					parts = append(parts, jen.Id(fmt.Sprintf("p%d", i)))
+					head += fmt.Sprintf("p%d ", i)
+				}
+				var sts []*jen.Statement
+				for _, v := range vals {
+					sts = append(sts, jen.Add(parts...).Lit(v))
+				}
+				for i, st := range sts {
+					got, want := jh.Raw(st), head+jh.Raw(jen.Lit(vals[i])).Out
+					r.Eval(1)
+					r.Distinct(fmt.Sprintf("add-spread-%d-%d-%d", extra, n, i))
+					if !got.OK() || got.Out != want {
+						r.Violate(ev.Violation{Signature: "c11:literal-after-spread-slice", What: fmt.Sprintf("Add(parts...) of one slice (len %d, cap %d) used %d times, literal %T(%v) appended to use %d: renders %q, want %q", n, n+extra, len(vals), vals[i], vals[i], i, got, want),
+							Case: ev.JSON(c11Case{Type: "litfunc-stateful"}), Detail: "a literal appended to a statement made from a shared argument slice was replaced"})
+					}
+				}
+			}
+		}
+	}
+
 	// literals appended to clones of one prefix statement, all built before any is rendered
 	for pi, mk := range []func() *jen.Statement{
 		func() *jen.Statement { return jen.Id("x").Index(jen.Lit(0)).Op("=") },
